@@ -63,13 +63,15 @@ inductive Add where
 structure World (V : Type) where
   lower   : Key → Key
   islower : Key → Bool
-  fp      : Key → V → Option V      -- conversion to the type of the field with this attname; none = raises
+  fp      : Nat → V → Option V      -- conversion to the declared type with this id; none = raises
   pred    : Nat → V → Bool          -- user callables given as no_input= / no_output=
   addConv : V → Option V            -- conversion to the class's addition type; none = raises
 
 /-- What the user writes: `attname: T = Field(...)` (after the `readonly/writeonly → mode` shortcut). -/
 structure FieldDecl (V : Type) where
   attname   : Key
+  ty        : Option Nat := some 0         -- the annotation written in this class body (a type id); none = the
+                                           -- attribute is assigned without annotation (`limit = 20`, `x = Field(...)`)
   alias     : Option Key := none
   aliasFrom : List Key := []
   ci        : Option Bool := none          -- Field(case_insensitive=), None = follow Options
@@ -110,6 +112,7 @@ def Opts.normalise {V : Type} (o : Opts V) : Opts V :=
 /-- `ParserField` after `generate` + `setup` + `apply_fields`. -/
 structure PField (V : Type) where
   attname    : Key
+  ty         : Option Nat         -- the type the field parses to; none = no annotation anywhere (`if not type: return value`)
   name       : Key                -- output name
   allAliases : List Key           -- accepted keys in priority order (lower-cased if case-insensitive)
   aliases    : List Key           -- those different from `name`
@@ -137,13 +140,15 @@ def FieldDecl.requiredNorm {V : Type} (d : FieldDecl V) : Req :=
   | none => if d.default.isSome then .no else .yes
 
 /-- `ParserField.generate` + `__init__` + `setup` (field.py:287-322, 467-476, 554-559). -/
-def mkField {V : Type} (W : World V) (o : Opts V) (d : FieldDecl V) : PField V :=
+def mkField {V : Type} (W : World V) (o : Opts V) (annotations : List (Key × Nat)) (d : FieldDecl V) : PField V :=
   let name := d.alias.getD d.attname                        -- get_alias
   let from_ := distinctAdd [d.attname] d.aliasFrom           -- get_alias_from
   let all := distinctAdd [name] from_                        -- ParserField.__init__: all_aliases
   let als := from_.filter (· ≠ name)
   let ci := d.ci.getD o.caseInsensitive                      -- is_case_insensitive
   { attname := d.attname, name := name
+    -- generate_fields: the annotation of the body, else `self.annotations.get(key)` — what the bases accumulated
+    ty := (match d.ty with | some t => some t | none => dget d.attname annotations)
     allAliases := if ci then all.map W.lower else all
     aliases := if ci then (als.map W.lower).eraseDups else als
     ci := ci, required := d.requiredNorm, default := d.default, deferDefault := d.deferDefault
@@ -205,6 +210,7 @@ structure Built (V : Type) where
   parser : Parser V
   opts : Opts V
   additionTyped : Bool
+  annotations : List (Key × Nat)       -- parser.annotations: attribute name → annotation, accumulated over the bases
   deriving Repr
 
 /-- `ClassParser.setup` = `generate_from_bases` (cls.py:223-257: the fields of the bases, in reversed `__bases__`
@@ -218,8 +224,12 @@ def mkParserIn {V : Type} (W : World V) (prev : List (Built V)) (c : ClassDecl V
   let o := eo.normalise
   let inherited := c.bases.reverse.foldl
     (fun acc b => match prev[b]? with | some p => dupdate acc p.parser.fields | none => acc) []
+  -- `annotations.update(parser.annotations)`: the base *parser's* accumulated map, so every level is kept
+  let annIn := c.bases.reverse.foldl
+    (fun acc b => match prev[b]? with | some p => dupdate acc p.annotations | none => acc) []
+  let annOut := c.fields.foldl (fun acc d => match d.ty with | some t => dset d.attname t acc | none => acc) annIn
   let kept := inherited.filter fun kf => !c.drops.contains kf.1
-  let own := c.fields.map fun d => let f := mkField W o d; (fieldKey W f, f)
+  let own := c.fields.map fun d => let f := mkField W o annIn d; (fieldKey W f, f)
   let fs := dupdate kept own
   let amap := aliasMapOf fs
   let cin := ciNamesOf fs
@@ -231,7 +241,7 @@ def mkParserIn {V : Type} (W : World V) (prev : List (Built V)) (c : ClassDecl V
         --  outside the modelled fragment, reported as not well-formed)
         depsOk := (fs.all fun kf => kf.2.deps.all fun dep => (depKey fs amap dep).isSome)
                   && c.drops.all fun k => dhas k inherited }
-    opts := eo, additionTyped := typed }
+    opts := eo, additionTyped := typed, annotations := annOut }
 
 /-- the declarations of a module, in order -/
 def buildAll {V : Type} (W : World V) (decls : List (ClassDecl V)) : List (Built V) :=
@@ -353,10 +363,16 @@ structure St (V : Type) where
   errs   : List Err := []
   deriving Repr
 
+/-- the type conversion of `parse_value` (field.py: `if not type: return value`, else `transformer(value, type)`) -/
+def convert {V : Type} (W : World V) (f : PField V) (v : V) : Option V :=
+  match f.ty with
+  | none => some v
+  | some t => W.fp t v
+
 /-- `ParserField.parse_value` (field.py:1063-1089): value to store (if any) and the errors handled. -/
 def parseValue {V : Type} (L : Legacy) (W : World V) (o : Opts V) (f : PField V) (v : V) :
     Option V × List Err × Bool :=
-  match W.fp f.attname v with
+  match convert W f v with
   | some r => (some r, [], false)
   | none =>
     match getOnError o f with
